@@ -30,6 +30,10 @@ def azi_to_ra_transform(azi, mjd):
     sidereal_day_residuals = (mjd / _sidereal_length) % 1
     ra = _sidereal_offset + 2 * np.pi * sidereal_day_residuals - azi
     ra = np.mod(ra, 2*np.pi)
+    # For a tiny negative argument np.mod rounds the result up to exactly
+    # 2*pi, which lies outside [0, 2*pi). A second reduction maps it to 0 and
+    # leaves all other values unchanged.
+    ra = np.mod(ra, 2*np.pi)
 
     return ra
 
